@@ -271,7 +271,8 @@ def verify_workbook(w, chart_blob: bytes, xlsx_blob: bytes, when):
             if not _cell_eq(v.text if v is not None else "", cell, "str" if kind == "strRef" else "num"):
                 rc = (r1 + i, c1) if cols == 1 else (r1, c1 + i)
                 _report_cell(w, wb, rc[0], rc[1], v.text if v is not None else "", cell, kind, when,
-                             "ref=%s idx=%d cache=%r cell=%r" % (f.text, i, v.text if v is not None else None, cell))
+                             "ref=%s idx=%d cache=%r cell=%r" % (f.text, i, v.text if v is not None else None, cell),
+                             is_cat=ref.getparent() is not None and ref.getparent().tag == C + "cat")
             n += 1
         # cells of the range that hold a value must be cached
         for i in range(max(rows, 0)):
@@ -283,7 +284,17 @@ def verify_workbook(w, chart_blob: bytes, xlsx_blob: bytes, when):
     w.stats.hit("c08_workbooks_verified")
 
 
-def _report_cell(w, wb, row, col, cache_text, cell, kind, when, detail):
+def _report_cell(w, wb, row, col, cache_text, cell, kind, when, detail, is_cat=False):
+    if is_cat and kind == "numRef":
+        try:
+            cv, kv = float(cell), float(cache_text)
+            # (on 1900-02-28 XlsxWriter itself adds the phantom leap day as soon as the serial has a fraction: 59.98 > 59)
+            if cv != int(cv) and (int(cv) == kv or (kv == 59.0 and int(cv) == 60)):
+                # known finding F-20: a datetime category label with a time of day - the cache holds the whole day, the cell the fraction too
+                w.report("c08|date-category-with-time-of-day|cache-holds-the-whole-day-cell-holds-the-fraction", detail, CLAUSES["c08-cell"])
+                return
+        except (TypeError, ValueError):
+            pass
     if (row, col) in wb.formulas and (cache_text or "").startswith(("=", "{=")):
         # known finding F-19: XlsxWriter's write() turns a str beginning with "=" into a formula cell
         w.report("c08|string-beginning-with-equals-sign-written-as-formula", detail, CLAUSES["c08-cell"])
@@ -349,6 +360,7 @@ def _after_data_op(w, deck, sl, sh, chart, rec, when, before_blob=None, n_before
     if m["type"] in ("PIE", "PIE_EXPLODED") and when == "after-add" and len(rec["series"]) > 1:
         rec = dict(rec, series=rec["series"][:1])  # known finding F-16: only the first series was written
     m["rec"] = rec
+    m.pop("unknown", None)
 
 
 def _chart_data_for(w, slot, rec, want_kind=None):
@@ -429,6 +441,10 @@ def g_add(r):
     d.update({"type": t, "data": g_data_for(r, t, big=r.random() < 0.15), "x": O.emu(r), "y": O.emu(r),
               "cx": r.randint(100000, 6000000), "cy": r.randint(100000, 4000000), "via": r.choice(["shapes", "shapes", "shapes", "placeholder"]),
               "slot": r.choice([None, None, 0, 1])})
+    if d["slot"] is not None and gens.chart_kind(t) == "cat" and r.random() < 0.15:
+        # a chart-data object that is not usable yet (series, no categories): the call is refused (ValueError "chart data contains
+        # no categories"); the caller completes the SAME object (c07.grow) and uses it again
+        d["data"] = {"kind": "cat", "cat_type": "str", "categories": [], "series": [{"name": gens._label(r, 6), "values": []} for _ in range(r.choice([1, 2, 3]))]}
     return d
 
 
@@ -454,6 +470,9 @@ def _add_chart(w, deck, a):
         raise
     except Exception as e:  # noqa: BLE001
         import traceback
+        if isinstance(e, ValueError) and rec["kind"] == "cat" and rec["categories"] == [] and rec["series"] and "no categories" in str(e):
+            w.stats.hit("c07_unfinished_chart_data_refused")
+            return "rejected:ValueError"
         w.report("accept|add_chart-raises|%s|%s" % (type(e).__name__, _exc_site(e)), "type=%s data=%s\n%s" % (a["type"], jdump(rec)[:600], traceback.format_exc()[-900:]), CLAUSES["accept"])
         return "undoc:%s" % type(e).__name__
     _after_data_op(w, deck, sl, gf, gf.chart, rec, "after-add")
@@ -562,6 +581,14 @@ def _replace(w, deck, a):
         chart.replace_data(cd_obj)
     except Exception as e:  # noqa: BLE001
         import traceback
+        if isinstance(e, ValueError) and rec["kind"] == "cat" and rec["categories"] == [] and rec["series"] and "no categories" in str(e):
+            w.stats.hit("c07_unfinished_chart_data_refused")
+            if chart.part.blob != before:
+                # the statement says nothing about a refused replacement: what the chart holds now is simply not known to the model until
+                # the next replacement that is accepted
+                m["unknown"] = True
+                w.stats.hit("c07_refused_replace_left_chart_changed")
+            return "rejected:ValueError"
         site = _exc_site(e)
         sig = "accept|replace_data-raises|%s|%s" % (type(e).__name__, site)
         if n_before == 0 and rec["series"]:
@@ -638,7 +665,7 @@ class ChartOracle(Oracle):
 
     def _verify(self, w, deck, prs, when):
         for key, m in sorted(_memo(deck)["charts"].items()):
-            if "rec" not in m or m.get("dead"):
+            if "rec" not in m or m.get("dead") or m.get("unknown"):
                 continue
             sid, shid = map(int, key.split("|"))
             sl = prs.slides.get(sid)
@@ -775,6 +802,9 @@ def pinned_traces(tier, which=("c07",)):
         ("F-19", [dict(box, op="c07.add_chart", type="COLUMN_CLUSTERED",
                        data={"kind": "cat", "cat_type": "str", "categories": ["=1+1", "b"], "series": [{"name": "=SUM(A1)", "values": [1, 2]}]})]),
     ]
+    if pid == "C08":
+        kf.append(("F-26", [dict(box, op="c07.add_chart", type="LINE", data={"kind": "cat", "cat_type": "date", "categories": [
+            {"date": "2016-12-27", "time": "23:30:00"}, {"date": "2016-12-28", "time": "00:00:00"}], "series": [{"name": "s", "values": [1, 2]}]})]))
     for name, evs in kf:
         out.append({"property": pid, "seed": "known-%s" % name, "tier": "pinned", "config": {"pinned": True, "chart_checks": list(which)},
                     "start": [{"deck": "default"}], "events": [{"op": "add_slide", "layout": 6}] + evs})
@@ -791,6 +821,18 @@ def pinned_traces(tier, which=("c07",)):
                {"op": "c07.replace", "chart": 0, "datas": {kind: d0}, "slot": 0},
                dict(box, op="c07.add_chart", type=t, data=d0, slot=0), {"op": "checkpoint", "sink": "seekable"}, {"op": "restart"}]
         out.append({"property": pid, "seed": "rolling-%s" % t, "tier": "pinned", "config": {"pinned": True, "chart_checks": list(which)},
+                    "start": [{"deck": "default"}], "events": evs})
+    # an unfinished chart-data object is refused, completed by the caller and used again (same object)
+    for t in ("LINE", "BAR_CLUSTERED", "PIE", "AREA_STACKED", "RADAR"):
+        d0 = {"kind": "cat", "cat_type": "str", "categories": [], "series": [{"name": "s1", "values": []}, {"name": "s2", "values": []}]}
+        g = {"vals": [1.5, -2.0, 3.25, 4.0, 5.5, 6.0, 7.0, 8.0, 9.0, 10.0, 11.0, 12.0], "label": "L", "name": "new", "ser": 0}
+        evs = [{"op": "add_slide", "layout": 6}, dict(box, op="c07.add_chart", type=t, data=d0, slot=0),
+               dict(g, op="c07.grow", slot=0, what="category", n=3),
+               dict(box, op="c07.add_chart", type=t, data=d0, slot=0),
+               dict(g, op="c07.grow", slot=0, what="series", n=1),
+               {"op": "c07.replace", "chart": 0, "datas": {"cat": d0}, "slot": 0},
+               {"op": "checkpoint", "sink": "seekable"}, {"op": "restart"}]
+        out.append({"property": pid, "seed": "refused-then-completed-%s" % t, "tier": "pinned", "config": {"pinned": True, "chart_checks": list(which)},
                     "start": [{"deck": "default"}], "events": evs})
     # PowerPoint-authored corpus charts: replace_data on each
     for deck in ("f-cht-replace-data.pptx", "f-cht-charts.pptx", "f-cht-series.pptx", "f-cht-chart-type.pptx"):
